@@ -9,8 +9,6 @@ import PyodaProofs.C10
 #print axioms Pyoda.C10.addLocalTime_mod
 #print axioms Pyoda.C10.plusPeriod_time_mod
 #print axioms Pyoda.C10.addWithDays_exact
-#print axioms Pyoda.C10.addWithDays_ok
-#print axioms Pyoda.C10.addWithDays_error_kind
 #print axioms Pyoda.C10.addLocalDateTime_exact
 #print axioms Pyoda.C10.addLocalDateTime_raises_iff
 #print axioms Pyoda.C10.plusPeriod_exact
